@@ -74,39 +74,73 @@ def fullKey (keys dests reqs ids : List Nat) (s : St) : String :=
   let perK := ";".intercalate (keys.map (fun k => s!"{s.cbfTok k}/{s.cbfPend k}/{if s.dpl k then 1 else 0}"))
   s!"{obs keys dests reqs s}#{s.sn}#{s.ego}#{regs}#{perD}#{perK}"
 
-/-- macro step: run thread `t` up to and including its next block, then the releases that follow -/
-partial def macroStep (s : Sys St) (t : ThreadId) : Option (Sys St) :=
-  let rec afterBlk (s : Sys St) : Sys St :=
-    match s.thr[t]? with
-    | some th => match th.prog with
-      | .rel _ :: _ => match step s t with | some s' => afterBlk s' | none => s
-      | _ => s
-    | none => s
-  let rec go (s : Sys St) (moved : Bool) : Option (Sys St) :=
-    match s.thr[t]? with
-    | none => none
-    | some th => match th.prog with
-      | [] => if moved then some s else none
-      | .blk _ :: _ => (step s t).map afterBlk
-      | _ => match step s t with
-        | some s' => go s' true
-        | none => none          -- blocked on an acquire: the macro step is not enabled (nothing is committed)
-  go s false
+/-- search state: the `Conc/Sched` system plus the tagged remainder of every thread's program -/
+structure XS where
+  sys : Sys St
+  tp : List (List TI)
+
+def guardFalse (s : St) : TI → Bool
+  | .gblk o slot v _ => s.reg o slot != v
+  | .nop => true
+  | _ => false
+
+/-- drop `n` instructions of thread `t` without executing them (they are invisible no-ops) -/
+def dropN (x : XS) (t n : Nat) : XS :=
+  match x.sys.thr[t]? with
+  | none => x
+  | some th =>
+    { sys := { x.sys with thr := x.sys.thr.set t { th with prog := th.prog.drop n } },
+      tp := x.tp.set t ((x.tp[t]?.getD []).drop n) }
+
+def step1 (x : XS) (t : Nat) : Option XS :=
+  (step x.sys t).map (fun s' => { sys := s', tp := x.tp.set t ((x.tp[t]?.getD []).drop 1) })
+
+/-- macro step of thread `t`: invisible steps (`loc`, `nop`, blocks and whole sections whose register guard is
+false) are fused with the visible block they surround; the step ends before the next visible block/section.
+`none` when the thread is finished or blocked before doing anything visible. -/
+partial def macroStep (x : XS) (t : ThreadId) : Option XS :=
+  let rec go (x : XS) (vis : Bool) (moved : Bool) : Option XS :=
+    match x.tp[t]?.getD [] with
+    | [] => if moved then some x else none
+    | .acq _ :: i :: .rel _ :: _ =>
+      if guardFalse x.sys.sh i then go (dropN x t 3) vis true
+      else if vis then some x
+      else match step1 x t with
+        | some x' => go x' vis true
+        | none => none
+    | .acq _ :: _ =>
+      if vis then some x
+      else match step1 x t with
+        | some x' => go x' vis true
+        | none => none
+    | .rel _ :: _ => match step1 x t with
+        | some x' => go x' vis true
+        | none => some x
+    | .loc _ :: _ => match step1 x t with
+        | some x' => go x' vis true
+        | none => some x
+    | i :: _ =>
+      if guardFalse x.sys.sh i then go (dropN x t 1) vis true
+      else if vis then some x
+      else match step1 x t with
+        | some x' => go x' true true
+        | none => none
+  go x false false
 
 def sysKey (keys dests reqs ids : List Nat) (s : Sys St) : String :=
   fullKey keys dests reqs ids s.sh ++ "@" ++ natsStr (s.thr.map (·.prog.length)) ++ "@" ++
     ";".intercalate (s.thr.map (fun th => natsStr th.held))
 
-partial def explore (keys dests reqs ids : List Nat) (s : Sys St)
+partial def explore (keys dests reqs ids : List Nat) (x : XS)
     (seen : Std.HashSet String) (outs : Std.HashSet String) : Std.HashSet String × Std.HashSet String :=
-  let k := sysKey keys dests reqs ids s
+  let k := sysKey keys dests reqs ids x.sys
   if seen.contains k then (seen, outs) else
   let seen := seen.insert k
-  if finished s then (seen, outs.insert (obs keys dests reqs s.sh)) else
-  let n := s.thr.length
-  let succs := (List.range n).filterMap (macroStep s)
+  if finished x.sys then (seen, outs.insert (obs keys dests reqs x.sys.sh)) else
+  let n := x.sys.thr.length
+  let succs := (List.range n).filterMap (macroStep x)
   if succs.isEmpty then (seen, outs.insert "DEADLOCK") else
-  succs.foldl (fun (acc : Std.HashSet String × Std.HashSet String) s' => explore keys dests reqs ids s' acc.1 acc.2) (seen, outs)
+  succs.foldl (fun (acc : Std.HashSet String × Std.HashSet String) x' => explore keys dests reqs ids x' acc.1 acc.2) (seen, outs)
 
 def dedup (xs : List Nat) : List Nat := xs.foldl (fun acc x => if acc.contains x then acc else acc ++ [x]) []
 
@@ -119,7 +153,8 @@ def exploreLine (ts : List String) : String :=
     let dests := sortNat (dedup (ops.flatMap opDests))
     let ids := sortNat (dedup (ops.flatMap opIds))
     let reqs := sortNat (dedup (ops.flatMap opReqs))
-    let (_, outs) := explore keys dests reqs ids (sys threads) {} {}
+    let x0 : XS := { sys := sys threads, tp := threads.map (fun ops => (ops.map compileT).flatten) }
+    let (_, outs) := explore keys dests reqs ids x0 {} {}
     let l := (outs.toList.toArray.qsort (· < ·)).toList
     "|".intercalate l
 
